@@ -96,7 +96,8 @@ fn mt_sound(prop: &str, rule: &str, sig: &str) -> bool {
         ("C07", "R3") => sig.starts_with("restart_only_changed") || sig.starts_with("recreate_kept") || sig.starts_with("state;") || sig.starts_with("non_restartable_restarted") || sig.starts_with("no_stopped_before_restart"),
         ("C08", "R1") => true,
         ("C10", "R1" | "R3") => true,
-        ("C15", "R1" | "R4") => true,
+        ("C15", "R1") => sig != "stop_starved",
+        ("C15", "R4") => true,
         ("C15", "R2") => !sig.starts_with("c07:"),
         ("C15", "R5") => !sig.starts_with("c09:") || sig.starts_with("c09:R1") || sig.starts_with("c09:R2") || sig.starts_with("c09:R3"),
         ("C15", "R6") => true,
@@ -125,7 +126,7 @@ pub fn check(prop: &str, cx: &Cx, rep: &mut Report) {
         // step cap / watchdog: nothing can be concluded from what did *not* happen, but a bounded-progress rule
         // over the recorded prefix is still sound: an accepted stop must not be starved by an endless stream
         rep.inconclusive = true;
-        if prop == "C13" || prop == "C04" {
+        if prop == "C13" || prop == "C04" || prop == "C15" {
             stop_starvation(prop, cx, rep);
         }
         if prop == "C13" || prop == "C02" {
@@ -262,10 +263,16 @@ pub fn handled_call_without_reply(cx: &Cx) -> Vec<(usize, u64)> {
 pub fn stop_starvation(prop: &str, cx: &Cx, rep: &mut Report) {
     use crate::log::{K, Mk, OpK, Res};
     let ix = cx.ix;
-    let (p, rule, key): (&'static str, &'static str, &'static str) = if prop == "C13" { ("C13", "R5", "C13.R5.bounded_progress_after_stop") } else { ("C04", "R3", "C04.R3.stop_not_starved_by_stream") };
+    let (p, rule, key): (&'static str, &'static str, &'static str) = match prop {
+        "C13" => ("C13", "R5", "C13.R5.bounded_progress_after_stop"),
+        "C15" => ("C15", "R1", "C15.R1.accepted_stop_takes_effect"),
+        _ => ("C04", "R3", "C04.R3.stop_not_starved_by_stream"),
+    };
     for d in cx.prog.actors.iter().filter(|d| d.entry.stream()) {
         let Some(task) = ix.task_of(d.tag) else { continue };
-        let acc = ix.ops.iter().filter(|o| o.tag == d.tag && o.op == OpK::Stop && matches!(o.res, Some(Res::Ok))).filter_map(|o| o.e).min();
+        // accepted stop requests: from outside, or the actor's own `ctx.stop()`
+        let own = ix.ev.iter().filter(|e| matches!(&e.k, K::Effect { actor, what, ok: true, .. } if *actor == task && *what == "ctx_stop")).map(|e| e.stamp).min();
+        let acc = ix.ops.iter().filter(|o| o.tag == d.tag && o.op == OpK::Stop && matches!(o.res, Some(Res::Ok))).filter_map(|o| o.e).chain(own).min();
         let Some(acc) = acc else { continue };
         let after = ix.ev.iter().filter(|e| e.stamp > acc && matches!(&e.k, K::HIn { mk: Mk::Item, actor, .. } if *actor == task)).count();
         rep.premise(key);
